@@ -362,6 +362,9 @@ class Problem(  # type: ignore[misc]
                 for e in a.effects:
                     remove_used_fluents(e.fluent, e.value, e.condition)
                     static_fluents.discard(e.fluent.fluent())
+                if isinstance(a, up.model.contingent.SensingAction):
+                    # observing a fluent is a use of it
+                    remove_used_fluents(*a.observed_fluents)
                 if a.simulated_effect is not None:
                     # empty the set because a simulated effect reads all the fluents
                     unused_fluents.clear()
